@@ -110,7 +110,9 @@ def check_vector(v):
             w.write(NpDataclassStream(iter(chunks), dataclass=type(t)))
             w.close()
         else:
-            w = bnp.open(path, "w", **kw)
+            # "suffix-only": the writer is chosen by the file name alone (.bed), the table has more columns than the plain interval type
+            wkw = {} if target_kind == "suffix-only" else kw
+            w = bnp.open(path, "w", **wkw)
             pos = 0
             for p in pieces:
                 if p >= 0:
@@ -120,7 +122,7 @@ def check_vector(v):
                     w.close()
                     w = None
                 else:
-                    w = bnp.open(path, "a", **kw)
+                    w = bnp.open(path, "a", **wkw)
             if w is not None:
                 w.close()
         raw = open(path, "rb").read()
@@ -142,7 +144,7 @@ def check_vector(v):
             return {"n": n, "nt": nt, "bad": bad}
         default_header = base[1][:len(base[1]) - len(want)]
         want = default_header + want
-    for kind in ("plain", "gzip", "stream"):
+    for kind in ("plain", "gzip", "stream") + (("suffix-only",) if fmt in ("bed6", "bed12") else ()):
         if kind == "stream" and (-2 in pieces):
             continue
         o = outcome(run, kind)
